@@ -209,3 +209,105 @@ Theorem C19_sphere_corner_000_is_octant : forall r,
   sphere_corner_area 0 0 0 r = 4 * PI * (r * r) / 8.
 Proof. exact sphere_corner_000. Qed.
 Print Assumptions C19_sphere_edge_is_two_corners.
+
+(* ================================================================== *)
+(* 2-D edge correction: arclen_2d_bounded IS the length of the part of  *)
+(* the circle inside the box  (Model/StaticGeom2.v, Proofs/StaticGeom2.v) *)
+(* ================================================================== *)
+From Coquelicot Require Import Coquelicot.
+From TP Require Import Model.StaticGeom2 Proofs.StaticGeom2.
+
+(* Validity range: EVERY r > 0 and EVERY centre in the closed box (wall
+   distances hl, hr, hb, ht >= 0).  No upper bound on r is needed: each wall
+   cuts off an open arc of half-width cut_halfwidth h r <= PI/2 around its own
+   direction, so arcs of opposite walls never meet, triple overlaps are empty,
+   and inclusion-exclusion over four caps and four adjacent corners is exact.
+
+   Measure of a set of directions, constructively: P has measure m
+   ([has_arc_measure P m]) when there is a list l of closed intervals, sorted
+   inside [-PI, PI] and overlapping at most in end points, such that for theta
+   in (-PI, PI]:  P theta <-> theta lies in an interval of l, and m is the sum
+   of the interval lengths.  m is unique and is the Riemann integral of the
+   indicator of P (two theorems below). *)
+
+(* The directions that stay inside the box are exactly the four explicit
+   quadrant intervals [gaps] between the arcs cut off by adjacent walls ... *)
+Theorem C19_arclen_2d_inside_directions : forall r hl hr hb ht theta,
+  0 < r -> 0 <= hl -> 0 <= hr -> 0 <= hb -> 0 <= ht -> - PI < theta <= PI ->
+  (- hl <= r * cos theta <= hr /\ - hb <= r * sin theta <= ht
+   <-> in_arcs [ (- PI + cut_halfwidth hl r, - (PI / 2) - cut_halfwidth hb r);
+                 (- (PI / 2) + cut_halfwidth hb r, - cut_halfwidth hr r);
+                 (cut_halfwidth hr r, PI / 2 - cut_halfwidth ht r);
+                 (PI / 2 + cut_halfwidth ht r, PI - cut_halfwidth hl r) ] theta).
+Proof. exact dir_inside_iff_gaps. Qed.
+Print Assumptions C19_arclen_2d_inside_directions.
+
+(* ... these intervals are sorted inside [-PI, PI] ... *)
+Theorem C19_arclen_2d_gaps_sorted : forall r hl hr hb ht,
+  0 <= hl -> 0 <= hr -> 0 <= hb -> 0 <= ht -> arcs_sorted (- PI) (gaps r hl hr hb ht) PI.
+Proof. exact gaps_sorted. Qed.
+
+(* ... and the code's expression (2 PI r - four caps + four corners, with the
+   code's masks h < r and h1^2 + h2^2 < r^2) is r times their total length. *)
+Theorem C19_arclen_2d_is_gap_length : forall r hl hr hb ht,
+  0 < r -> 0 <= hl -> 0 <= hr -> 0 <= hb -> 0 <= ht ->
+  arclen_2d r hl hr hb ht = r * arcs_length (gaps r hl hr hb ht).
+Proof. exact arclen_2d_is_gap_length. Qed.
+Print Assumptions C19_arclen_2d_is_gap_length.
+
+(* The corner term is present exactly when the two cut-off arcs overlap. *)
+Theorem C19_corner_inside_iff_arcs_overlap : forall h1 h2 r,
+  0 <= h1 < r -> 0 <= h2 < r ->
+  (h1 * h1 + h2 * h2 < r * r <-> PI / 2 < acos (h1 / r) + acos (h2 / r)).
+Proof. exact corner_inside_iff. Qed.
+
+(* MAIN (box form).  arclen_2d_bounded r cx cy x0 x1 y0 y1 is one row of
+   trackpy.static.arclen_2d_bounded(dist, pos, box) with dist = r, pos = (cx, cy),
+   box = [[x0, x1], [y0, y1]] (before the NaN mask for vanishing arcs).
+   For every centre in the closed box and every r > 0 it equals r times the
+   angular measure of { theta in (-PI, PI] | centre + r (cos theta, sin theta) in box }. *)
+Theorem C19_arclen_2d_bounded_is_measure : forall r cx cy x0 x1 y0 y1,
+  0 < r -> (x0 <= cx <= x1 /\ y0 <= cy <= y1) ->
+  exists m,
+    has_arc_measure (fun theta => x0 <= cx + r * cos theta <= x1 /\ y0 <= cy + r * sin theta <= y1) m /\
+    arclen_2d r (cx - x0) (x1 - cx) (cy - y0) (y1 - cy) = r * m.
+Proof. exact arclen_2d_bounded_is_measure. Qed.
+Print Assumptions C19_arclen_2d_bounded_is_measure.
+
+(* The same as a Riemann integral (Coquelicot is_RInt): the integral over
+   (-PI, PI) of the arc-length element r dtheta restricted to the directions
+   inside the box (box_indicator = 1 inside the closed box, 0 outside). *)
+Theorem C19_arclen_2d_bounded_is_integral : forall r cx cy x0 x1 y0 y1,
+  0 < r -> (x0 <= cx <= x1 /\ y0 <= cy <= y1) ->
+  is_RInt (fun theta => r * box_indicator x0 x1 y0 y1 (cx + r * cos theta) (cy + r * sin theta))
+          (- PI) PI
+          (arclen_2d r (cx - x0) (x1 - cx) (cy - y0) (y1 - cy)).
+Proof. exact arclen_2d_bounded_is_integral. Qed.
+Print Assumptions C19_arclen_2d_bounded_is_integral.
+
+Theorem C19_box_indicator_spec : forall x0 x1 y0 y1 px py,
+  ((x0 <= px <= x1 /\ y0 <= py <= y1) -> box_indicator x0 x1 y0 y1 px py = 1) /\
+  (~ (x0 <= px <= x1 /\ y0 <= py <= y1) -> box_indicator x0 x1 y0 y1 px py = 0).
+Proof. exact box_indicator_spec. Qed.
+
+(* The measure is well defined: it does not depend on the interval list used to
+   describe the set, and it is the integral of any 0/1 indicator of the set. *)
+Theorem C19_arc_measure_unique : forall (P : R -> Prop) m m',
+  has_arc_measure P m -> has_arc_measure P m' -> m = m'.
+Proof. exact arc_measure_unique. Qed.
+Theorem C19_arc_measure_is_integral : forall (P : R -> Prop) m (f : R -> R),
+  has_arc_measure P m ->
+  (forall x, - PI < x < PI -> (P x -> f x = 1) /\ (~ P x -> f x = 0)) ->
+  is_RInt f (- PI) PI m.
+Proof. exact arc_measure_is_integral. Qed.
+Print Assumptions C19_arc_measure_unique.
+
+(* non-vacuity / instances: no wall within reach -> the full circle; centre in a
+   box corner -> the inside directions have measure PI/2 (a quarter circle). *)
+Theorem C19_arclen_2d_no_wall : forall r hl hr hb ht,
+  0 < r -> r <= hl -> r <= hr -> r <= hb -> r <= ht -> arclen_2d r hl hr hb ht = 2 * PI * r.
+Proof. exact arclen_2d_no_wall. Qed.
+Example C19_arclen_2d_corner_measure : forall r big,
+  0 < r -> r <= big ->
+  has_arc_measure (fun theta => 0 <= 0 + r * cos theta <= big /\ 0 <= 0 + r * sin theta <= big) (PI / 2).
+Proof. exact corner_quarter_measure. Qed.
